@@ -64,6 +64,11 @@ def main():
         rc, out = sh("go build ./...", cwd=wt)
         meta["builds"] = rc == 0
         rc, out = sh("go test -mod=mod -vet=off -count=1 ./...", cwd=wt)
+        if rc != 0:
+            # the unchanged tree has a rare flaky test (tests/testcase/lightcone TestQPQTest, a race in the test
+            # stub's step/continue channel protocol): a failure is re-run once before it counts
+            meta["suite_first_failure_tail"] = out[-1500:]
+            rc, out = sh("go test -mod=mod -vet=off -count=1 ./...", cwd=wt)
         meta["suite_passes_with_patch"] = rc == 0
         copied = demo_copy_cmds(seed, wt)
         meta["demo_files"] = copied
